@@ -3365,6 +3365,18 @@ impl SctpInner {
         let mut max_retransmits: Option<u16> = None;
         let mut expiry: Option<Instant> = None;
 
+        // Before the association is up there is no peer tag and no agreed initial TSN:
+        // user data sent now would leave at once and be "acknowledged" by the first SACK
+        // without ever being delivered.
+        if !is_dcep
+            && matches!(
+                *self.state.lock(),
+                SctpState::New | SctpState::Connecting
+            )
+        {
+            return Err(anyhow::anyhow!("sctp association is not established yet"));
+        }
+
         let (_guard, ssn) = if let Some(dc) = &dc_opt {
             let guard = dc.send_lock.lock().await;
             ordered = if is_dcep { false } else { dc.ordered };
